@@ -80,7 +80,7 @@ def doLowLevelMove(port_name, rate1, steps1, accel1, rate2, steps2,
         if ((rate1 == 0 and accel1 == 0) or steps1 == 0) and\
                 ((rate2 == 0 and accel2 == 0) or steps2 == 0):
             return # No steps to take on either axis
-        if clear:
+        if clear is not None:
             str_output = 'LM,{0},{1},{2},{3},{4},{5},{6}\r'.format(rate1,\
                                     steps1, accel1, rate2, steps2, accel2, clear)
         else:
